@@ -660,8 +660,16 @@ func (w *world) recvV2() {
 	}
 	n := w.npayloads()
 	pkt := lib.M{"seq": lib.U(uint64(1 + r.Intn(6))), "src": src, "dst": dst, "tt": lib.U(tt), "payloads": w.payloads(n)}
+	before := len(w.sh.Keys("async"))
 	w.send(lib.M{"f": "recvV2", "pkt": pkt, "ph": lib.M{"r": "1", "h": "9"}, "apps": w.appsV2(n)})
 	w.recvd2 = append(w.recvd2, pkt)
+	if len(w.sh.Keys("async")) > before && r.Chance(0.6) {
+		// the application answers the asynchronous packet (sometimes twice)
+		w.writeAckV2()
+		if r.Chance(0.3) {
+			w.writeAckV2()
+		}
+	}
 }
 
 func (w *world) mutV2(p lib.M) lib.M {
@@ -869,12 +877,12 @@ func (w *world) someClient() string {
 	if len(w.clients) > 0 && w.r.Chance(0.85) {
 		return lib.Pick(w.r, w.clients)
 	}
-	return lib.Pick(w.r, []string{"99-verif-7", "98-verif-0", "77-none-0", "channel-0", "bad"})
+	return lib.Pick(w.r, []string{"99-verif-7", "98-verif-0", "77-none-0", "channel-0", "bad", "nodashclient9", "99-verif-18446744073709551616", "99-verif-18446744073709551615", "-9verif-0", "99-verif--0"})
 }
 
 func (w *world) authOp() {
 	r := w.r
-	sg := lib.Pick(r, []string{"alice", "alice", "bob", "auth", "carol"})
+	sg := lib.Pick(r, []string{"alice", "alice", "bob", "auth", "auth", "carol"})
 	switch r.Intn(11) {
 	case 0, 1:
 		w.send(lib.M{"f": "registerCounterparty", "client": w.someClient(), "cpClient": "07-tendermint-" + lib.U(uint64(5+r.Intn(3))), "prefix": []string{prefixHex, ""}, "signer": sg})
@@ -902,8 +910,8 @@ func (w *world) authOp() {
 	case 7:
 		subj, subst := w.someClient(), w.someClient()
 		lc := w.lc()
-		lc["stOf"] = lib.M{subj: lib.Pick(r, []string{"Expired", "Frozen", "Active"}), subst: lib.Pick(r, []string{"Active", "Active", "Expired"})}
-		lc["lhOf"] = lib.M{subj: lib.M{"r": "1", "h": lib.U(uint64(10 + r.Intn(3)))}, subst: lib.M{"r": "1", "h": lib.U(uint64(10 + r.Intn(4)))}}
+		lc["stOf"] = lib.M{subj: lib.Pick(r, []string{"Expired", "Frozen", "Expired", "Active"}), subst: lib.Pick(r, []string{"Active", "Active", "Active", "Expired"})}
+		lc["lhOf"] = lib.M{subj: lib.M{"r": "1", "h": lib.U(uint64(10 + r.Intn(3)))}, subst: lib.M{"r": "1", "h": lib.U(uint64(11 + r.Intn(4)))}}
 		if subj == subst {
 			delete(lc, "stOf")
 			delete(lc, "lhOf")
